@@ -30,7 +30,7 @@ ASSUMPTIONS = [
     'the exception is recorded as a diagnostic only',
     'stateful helpers (buffer, when, updating) are outside the statement and not generated',
 ]
-REQUIRED = {'late_built_nodes': 300, 'reads': 5000, 'reads_after_update': 2000, 'reads_raising': 200, 'watch_checks': 500, 'operator_forms': 60, 'break_and_repair_plans': 100}
+REQUIRED = {'late_built_nodes': 300, 'reads': 5000, 'reads_after_update': 2000, 'reads_raising': 200, 'watch_checks': 500, 'operator_forms': 60, 'break_and_repair_plans': 100, 'reads_interrupted': 40}
 
 _st = {}
 
@@ -252,7 +252,14 @@ def build(rng, P, rep, table_mode=False):
                 add(lambda: x.rx[i.rx], lambda: x.ev()[i.ev()], f'{x.desc}[{i.desc}]', 'any', 'index:rx', (x, i))
         elif k < 0.63:
             x, y = rng.choice(nodes), rng.choice(nodes)
-            f = lambda v, w: (v, w)    # noqa: E731
+
+            def f(v, w):
+                if _st.get('interrupt_armed'):
+                    # the evaluation is interrupted from outside (Ctrl-C while a slow function runs)
+                    _st['interrupt_armed'] = False
+                    _st['interrupted'] = True
+                    raise KeyboardInterrupt
+                return (v, w)
             add(lambda: x.rx.rx.pipe(f, y.rx), lambda: (x.ev(), y.ev()), f'pipe({x.desc},{y.desc})', 'any', 'pipe', (x, y))
         elif k < 0.66:
             # inputs handed over as keyword arguments
@@ -462,6 +469,31 @@ def run_case(idx, rng, P, rep):
                 pool = POOLS[inputs[name][1]]
                 plan = [('set', name, rng.choice(pool[8:] or pool[-1:])), ('read', n), ('set', name, pool[0]), ('read', n)]
                 rep.count('break_and_repair_plans')
+        if not plan and not table_mode and rng.random() < 0.06:
+            # an evaluation interrupted from outside: change an input of an expression that runs a piped function, read it
+            # (the function is interrupted), then read it again (nothing is wrong with inputs or function any more)
+            cands = [n for n in nodes if n.kind == 'pipe' and n.ins and outcome(n.ev)[0] == 'ok']
+            if cands:
+                n = rng.choice(cands)
+                name = rng.choice(sorted(n.ins))
+                pool = POOLS[inputs[name][1]]
+                plan = [('set', name, rng.choice(pool[:8])), ('read-interrupted', n), ('read', n)]
+                rep.count('interrupted_read_plans')
+        if plan and plan[0][0] == 'read-interrupted':
+            n = plan.pop(0)[1]
+            hist.append(('read-interrupted', n.desc[:80]))
+            _st['interrupt_armed'], _st['interrupted'] = True, False
+            try:
+                n.rx.rx.value
+            except KeyboardInterrupt:
+                pass
+            except Exception:   # noqa: BLE001
+                pass
+            finally:
+                _st['interrupt_armed'] = False
+            if _st['interrupted']:
+                rep.count('reads_interrupted')
+            continue
         if plan and plan[0][0] == 'read':
             n = plan.pop(0)[1]
             hist.append(('read', n.desc[:80]))
